@@ -1,10 +1,11 @@
 #!/bin/bash
 # usage: run_benign.sh [round dir]  — every benign patch under /verif/benign must leave every check silent
 d=${1:-/verif/benign}
-n=0; bad=0
+n=0; bad=0; stale=0
 for p in $(find $d -name 'b*.diff' | sort); do
   n=$((n+1))
   r=$(/verif/tools/eval_patch.sh $p all 2>&1 | sort -u | cut -c1-240)
+  if echo "$r" | grep -q "APPLY-FAILED"; then stale=$((stale+1)); echo "STALE ${p#/verif/benign/} (no longer applies to the current tree)"; continue; fi
   if [ -n "$r" ]; then bad=$((bad+1)); echo "ALARM ${p#/verif/benign/}"; echo "$r" | head -6; fi
 done
-echo "benign patches: $n, alarms: $bad"
+echo "benign patches: $n, alarms: $bad, stale: $stale"
